@@ -2,6 +2,7 @@
 
 pub mod choice;
 pub mod engine;
+pub mod fuzz;
 pub mod gen;
 pub mod known;
 pub mod model;
